@@ -50,6 +50,8 @@ def cases(tier, seed):
         if i not in seen:
             seen.add(i)
             out.append({"id": i, "fv": fv, "dev": 2, "seed": seed, "tier": tier})
+    # a state that is literally called `value` (the name of the value column of the result frame)
+    out.append({"id": "odd-state-named-value", "odd": "state_named_value", "fv": dict(family.BASE), "dev": 1, "seed": seed, "tier": tier})
     # explicit members with a non-broadcast-safe auxiliary function in the ancestry of next_w (K5)
     for extra in ({}, {"filt": "none"}, {"T": 2}):
         fv = family.normalise(dict(family.BASE, aux="reduce", **extra))
@@ -132,8 +134,25 @@ def check_frame(r, fr, init, params, viols, tag):
     return cnt
 
 
+class _Odd:
+    valid = True
+
+    def __init__(self, odd, T):
+        from mc.checks import c12
+
+        self.text = c12.odd_source(odd, T)
+        self.model = family.exec_model(self.text)
+        self.fv = dict(family.BASE, T=T)
+
+    def params(self, variant="default", beta=0.9):
+        p = {"beta": beta}
+        for f in self.model.functions:
+            p[f] = {"a": 1.3} if f == "utility" else {}
+        return p
+
+
 def run_case(case):
-    b = e1.Built(case["fv"], case["seed"])
+    b = _Odd(case["odd"], 3) if case.get("odd") else e1.Built(case["fv"], case["seed"])
     if not b.valid:
         return outcome(status="skipped", skip_reason="invalid-combo", nontrivial=False)
     viols, cnt, traces, dig = [], 0, 0, []
